@@ -3,6 +3,7 @@ package loadbalancer
 import (
 	"fmt"
 	"net/http/httptest"
+	"strings"
 	"testing"
 	"time"
 
@@ -132,13 +133,22 @@ func c12Scenarios() []vh.SScenario {
 	}
 	var out []vh.SScenario
 	n := len(c12Actors)
+	// the requests whose upload goes on in a thread of its own bring a third thread into every
+	// pair: in the thorough tier their pairs keep the quick tier's preemption bound (under every
+	// strategy), and they take no part in the triples - with both, the race-mode exploration of
+	// this one property went from half an hour to more than an hour
+	slowUpload := func(a int) bool { return strings.HasPrefix(c12Actors[a].name, "req-upload-answered-early") }
 	for _, st := range strategies {
 		for a := 0; a < n; a++ {
 			for b := a; b < n; b++ {
 				if a == b && (c12Actors[a].name == "probe-tick" || c12Actors[a].name == "tick-with-b0-ejected") {
 					continue // two ticks: 50 000 executions at one preemption; covered by C19's two-tick scenario
 				}
-				out = append(out, c12Scenario(c12Params{st, []int{a, b}}, bound))
+				pb := bound
+				if vres.Thorough() && (slowUpload(a) || slowUpload(b)) {
+					pb = 1
+				}
+				out = append(out, c12Scenario(c12Params{st, []int{a, b}}, pb))
 			}
 		}
 	}
@@ -156,6 +166,9 @@ func c12Scenarios() []vh.SScenario {
 		for _, st := range []string{"least_connections", "ip_hash_consistent"} {
 			for a := 1; a < n; a++ {
 				for b := a + 1; b < n; b++ {
+					if slowUpload(a) || slowUpload(b) {
+						continue
+					}
 					out = append(out, c12Scenario(c12Params{st, []int{0, a, b}}, 1))
 				}
 			}
